@@ -737,3 +737,19 @@ def run(chk: Check):
     if extra:
         chk.notes.append("further failing cases not recorded individually: %s" % extra)
     chk.cov["exhaustive"] = True
+
+
+# ---- growth beyond the listed property: the viewer object cache files behind ObjectUpdateCached, and the name cache
+# (ObjectCache.tla, NameCache.tla)
+_run_compressed = run
+
+
+def run(chk):
+    _run_compressed(chk)
+    from . import growth_objectcache
+    if chk.tier == "quick":
+        common.growth(chk, "ObjectCache", growth_objectcache.section, 6, 5, 2, [0, 1, 24, 27], False, False, False, 3, 2, False,
+                      max_pairs=600)
+    else:
+        common.growth(chk, "ObjectCache", growth_objectcache.section, 9, 5, 3, [0, 1, 3, 8, 24, 27, 30, 51], False, True, True,
+                      4, 2, False, max_pairs=6000)
